@@ -67,7 +67,7 @@ func validateInvoiceCustomer(val any) error {
 
 func validateInvoiceTax(val any) error {
 	t, ok := val.(*bill.Tax)
-	if !ok {
+	if !ok || t == nil {
 		return nil
 	}
 	return validation.ValidateStruct(t,
